@@ -139,6 +139,8 @@ func (e *c19Env) option(tag string) util.Option {
 		return options.WithOnOpen(e.onOpen[v])
 	case "WithOnClose":
 		return options.WithOnClose(e.onClose[v])
+	case "WithDefaultLogger":
+		return options.WithDefaultLogger()
 	case "WithLogger":
 		return options.WithLogger(e.loggers[v])
 	case "WithNetconfPreferredVersion":
@@ -321,6 +323,10 @@ func (e *c19Env) observe(g *generic.Driver, n *network.Driver, c *netconf.Driver
 
 	two("Logger", "WithLogger", func(v int) bool { return lg == e.loggers[v] })
 
+	if lg != nil && lg != e.loggers[1] && lg != e.loggers[2] && lg.Level == "info" && len(lg.Loggers) == 1 {
+		o["Logger"] = []string{"WithDefaultLogger:1"}
+	}
+
 	return o
 }
 
@@ -334,6 +340,10 @@ var c19Fields = map[string]string{ // field -> constructors that expose it
 }
 
 func normFlag(tags []string, field string) []string {
+	if field == "Logger" && len(tags) == 1 && strings.HasPrefix(tags[0], "WithDefaultLogger:") {
+		return []string{"WithDefaultLogger:1"} // the option takes no value
+	}
+
 	if field == "S.StrictKey" || field == "C.AuthBypass" || field == "NC.ForceSelfClosingTags" || field == "NC.ExcludeHeader" {
 		if len(tags) > 0 {
 			return []string{"flag"}
@@ -353,6 +363,13 @@ func c19Run(e *c19Env, s *c19Scn, ctor string) verdict {
 		var o []util.Option
 		for _, t := range tags {
 			if t == "NoPrivilegeLevels:0" {
+				continue
+			}
+
+			if t == "TelnetIgnoresSSHFileOptions:0" {
+				o = append(o, options.WithTransportType("telnet"), options.WithSSHKnownHostsFile(filepath.Join(e.dir, "no-such-kh")),
+					options.WithSSHConfigFile(filepath.Join(e.dir, "no-such-cfg")))
+
 				continue
 			}
 
@@ -420,6 +437,26 @@ func c19Run(e *c19Env, s *c19Scn, ctor string) verdict {
 			if err == nil {
 				n, err = p.GetNetworkDriver()
 			}
+		case "q":
+			// a platform definition of driver type 'generic': its options block counts just the same
+			var y strings.Builder
+
+			y.WriteString("---\nplatform-type: 'verifg'\ndefault:\n  driver-type: 'generic'\n")
+
+			if len(s.Platform) > 0 {
+				y.WriteString("  options:\n")
+
+				for _, t := range s.Platform {
+					y.WriteString(yamlOption(t))
+				}
+			}
+
+			var p *platform.Platform
+
+			p, err = platform.NewPlatform([]byte(y.String()), "h", build(s.User)...)
+			if err == nil {
+				g, err = p.GetGenericDriver()
+			}
 		}
 	}()
 
@@ -479,8 +516,17 @@ func c19Run(e *c19Env, s *c19Scn, ctor string) verdict {
 	got := e.observe(g, n, c, ch, tr)
 
 	for field, ctors := range c19Fields {
-		if !strings.Contains(ctors, ctor) {
+		as := ctor
+		if ctor == "q" {
+			as = "g"
+		}
+
+		if !strings.Contains(ctors, as) {
 			continue
+		}
+
+		if ctor == "c" && len(s.Expect[field]) == 1 && strings.HasPrefix(s.Expect[field][0], "WithDefaultLogger:") {
+			continue // the default-logger option addresses the generic driver only
 		}
 
 		want := normFlag(s.Expect[field], field)
@@ -521,7 +567,11 @@ func c19(_ []string) error {
 			return err
 		}
 
-		for _, ctor := range []string{"g", "n", "c", "p"} {
+		for _, ctor := range []string{"g", "n", "c", "p", "q"} {
+			if ctor == "q" && s.Kind == "invalid" {
+				continue
+			}
+
 			if s.Ctor != "" && s.Ctor != ctor {
 				continue
 			}
